@@ -3,7 +3,9 @@
     §F the table of known iteration sites. *)
 From V Require Import Base.Util C17.Sites C17.Model.
 From V Require Gen.C17_sites_gen.
-From Coq Require Import Permutation Sorting.Sorted.
+From Coq Require Import Permutation Sorting.Sorted String.
+Import ListNotations.
+Open Scope list_scope.
 
 
 (* ------------------------------------------------------------------------------------------- *)
@@ -263,12 +265,12 @@ Proof.
     destruct (d_kind d); try reflexivity.
     - destruct (hm_get (get_scalar_types doc o') (d_name d)); [apply EW|reflexivity].
     - destruct (is_input t); [reflexivity|apply EW].
-    - destruct (is_input t); [reflexivity|]. rewrite EW. unfold with_local.
-      destruct (hm_get (ctx_local_names pi' o' doc) (d_name d)); [|reflexivity].
-      do 4 f_equal. apply map_ext. intros a. apply ELO.
-    - destruct (is_input t); [reflexivity|]. rewrite EW. unfold with_local.
-      destruct (hm_get (ctx_local_names pi' o' doc) (d_name d)); [|reflexivity].
-      do 4 f_equal. apply map_ext. intros a. apply ELO.
+    - destruct (is_input t); [reflexivity|]. rewrite EW.
+      rewrite (map_ext (fun o0 => local_of pi o doc (d_name o0)) (fun o0 => local_of pi' o' doc (d_name o0))
+                       (fun a => ELO (d_name a))).
+      reflexivity.
+    - destruct (is_input t); [reflexivity|]. rewrite EW.
+      rewrite (map_ext (local_of pi o doc) (local_of pi' o' doc) ELO). reflexivity.
     - apply EW.
     - destruct (is_input t); [apply EW|reflexivity]. }
   assert (EP : forall sec t ds, print_defs pi o doc sec t ds = print_defs pi' o' doc sec t ds).
@@ -291,3 +293,555 @@ Proof.
   - reflexivity.
   - intros k. now apply from_config_oracle_irrelevant.
 Qed.
+
+(* ------------------------------------------------------------------------------------------- *)
+(** * §C SchemaBuilder / Schema *)
+
+(** the builder's invariant: the name vector lists the keys of the map, in order, without repetition *)
+Definition wf {D} (sc : schema D) : Prop := sc_names sc = keys (sc_types sc) /\ NoDup (sc_names sc).
+
+Lemma wf_empty {D} : wf (@sb_empty D).
+Proof. split; [reflexivity|constructor]. Qed.
+
+Lemma hm_mem_true_iff {V} (m : hmap V) k : hm_mem m k = true <-> In k (keys m).
+Proof.
+  unfold hm_mem. destruct (hm_get m k) eqn:E.
+  - split; [intros _|reflexivity]. apply hm_get_some_in in E.
+    apply in_map_iff. now exists (k, v).
+  - split; [discriminate|]. intros Hin. apply hm_get_None_not_in in E. contradiction.
+Qed.
+
+Lemma NoDup_snoc {A} (l : list A) (k : A) : NoDup l -> ~ In k l -> NoDup (l ++ [k]).
+Proof.
+  intros Hnd Hn. eapply Permutation_NoDup; [apply Permutation_cons_append|]. now constructor.
+Qed.
+
+Lemma wf_add {D} (b : schema D) k d : wf b -> wf (sb_add b k d).
+Proof.
+  intros [Hn Hnd]. unfold sb_add. destruct (hm_mem (sc_types b) k) eqn:E; [now split|].
+  split; cbn.
+  - unfold keys in *. rewrite map_app, Hn. reflexivity.
+  - assert (Hnotin : ~ In k (sc_names b)).
+    { rewrite Hn. intros Hin. apply hm_mem_true_iff in Hin. congruence. }
+    apply NoDup_snoc; assumption.
+Qed.
+
+Lemma wf_extend {D} (items : list (str * D)) : forall b : schema D, wf b -> wf (sb_extend b items).
+Proof.
+  unfold sb_extend. induction items as [|[k d] r IH]; intros b Hb; cbn [fold_left fst snd]; [exact Hb|].
+  apply IH. now apply wf_add.
+Qed.
+
+Lemma wf_build {D} (items : list (str * D)) : wf (build items).
+Proof. apply wf_extend, wf_empty. Qed.
+
+(** [iter_types] of a well-formed schema is the entry list itself: insertion order, no oracle *)
+Lemma iter_types_wf {D} (sc : schema D) : wf sc -> iter_types sc = sc_types sc.
+Proof.
+  intros [Hn Hnd]. unfold iter_types. rewrite Hn in *.
+  assert (G : forall l : hmap D, (forall k v, In (k, v) l -> hm_get (sc_types sc) k = Some v) ->
+              flat_map (fun n => match hm_get (sc_types sc) n with Some d => [(n, d)] | None => [] end) (keys l) = l).
+  { induction l as [|[k v] r IH]; intros Hl; [reflexivity|].
+    cbn [keys map fst flat_map]. rewrite (Hl k v) by now left. cbn [app]. f_equal.
+    apply IH. intros k' v' Hin. apply Hl. now right. }
+  apply G. intros k v Hin. now apply hm_get_in.
+Qed.
+
+(** with distinct names, the builder stores exactly the definitions it was given, in the given order *)
+Lemma build_nodup_gen {D} (items : list (str * D)) : forall b : schema D,
+  wf b -> NoDup (sc_names b ++ keys items) ->
+  sc_types (sb_extend b items) = sc_types b ++ items /\ sc_names (sb_extend b items) = sc_names b ++ keys items.
+Proof.
+  unfold sb_extend. induction items as [|[k d] r IH]; intros b Hb Hnd; cbn [fold_left fst snd].
+  - cbn [keys map]. now rewrite !app_nil_r.
+  - cbn [keys map fst] in Hnd.
+    assert (Hnotin : ~ In k (sc_names b)).
+    { intros Hin. apply NoDup_remove_2 in Hnd. apply Hnd. apply in_or_app. now left. }
+    assert (E : sb_add b k d = mk_schema (sc_types b ++ [(k, d)]) (sc_names b ++ [k])).
+    { unfold sb_add. destruct (hm_mem (sc_types b) k) eqn:Em; [|reflexivity].
+      apply hm_mem_true_iff in Em. destruct Hb as [Hn _]. rewrite <- Hn in Em. contradiction. }
+    rewrite E. specialize (IH (mk_schema (sc_types b ++ [(k, d)]) (sc_names b ++ [k]))).
+    cbn [sc_types sc_names] in IH. rewrite <- !app_assoc in IH. cbn [app] in IH.
+    apply IH.
+    + rewrite <- E. now apply wf_add.
+    + exact Hnd.
+Qed.
+
+Lemma build_nodup {D} (items : list (str * D)) :
+  NoDup (keys items) -> sc_types (build items) = items /\ sc_names (build items) = keys items.
+Proof. intros Hnd. apply (build_nodup_gen items sb_empty wf_empty). exact Hnd. Qed.
+
+Lemma iter_types_build_nodup {D} (items : list (str * D)) :
+  NoDup (keys items) -> iter_types (build items) = items.
+Proof. intros Hnd. rewrite iter_types_wf by apply wf_build. now apply build_nodup. Qed.
+
+Lemma get_type_build_nodup {D} (items : list (str * D)) k :
+  NoDup (keys items) -> get_type (build items) k = hm_get items k.
+Proof. intros Hnd. unfold get_type. now destruct (build_nodup items Hnd) as [-> _]. Qed.
+
+(** first insertion wins in general: the names are the first occurrences, in order *)
+Fixpoint dedup (seen l : list str) : list str :=
+  match l with
+  | [] => []
+  | x :: r => if existsb (str_eqb x) seen then dedup seen r else x :: dedup (seen ++ [x]) r
+  end.
+
+Lemma existsb_str_in x l : existsb (str_eqb x) l = true <-> In x l.
+Proof.
+  rewrite existsb_exists. split.
+  - intros (y & Hin & E). apply str_eqb_eq in E. now subst.
+  - intros Hin. exists x. split; [exact Hin|apply str_eqb_refl].
+Qed.
+
+Lemma names_extend {D} (items : list (str * D)) : forall b : schema D,
+  wf b -> sc_names (sb_extend b items) = sc_names b ++ dedup (sc_names b) (keys items).
+Proof.
+  unfold sb_extend. induction items as [|[k d] r IH]; intros b Hb; cbn [fold_left fst snd keys map dedup].
+  - now rewrite app_nil_r.
+  - pose proof Hb as [Hn _].
+    destruct (hm_mem (sc_types b) k) eqn:Em.
+    + assert (Eadd : sb_add b k d = b) by (unfold sb_add; now rewrite Em).
+      rewrite Eadd.
+      assert (Hin : existsb (str_eqb k) (sc_names b) = true).
+      { apply existsb_str_in. rewrite Hn. now apply hm_mem_true_iff. }
+      rewrite Hin. now apply IH.
+    + assert (Eadd : sb_add b k d = mk_schema (sc_types b ++ [(k, d)]) (sc_names b ++ [k]))
+        by (unfold sb_add; now rewrite Em).
+      assert (Hin : existsb (str_eqb k) (sc_names b) = false).
+      { destruct (existsb (str_eqb k) (sc_names b)) eqn:Ex; [|reflexivity].
+        apply existsb_str_in in Ex. rewrite Hn in Ex. apply hm_mem_true_iff in Ex. congruence. }
+      rewrite Hin.
+      assert (Hw : wf (mk_schema (sc_types b ++ [(k, d)]) (sc_names b ++ [k]))).
+      { rewrite <- Eadd. now apply wf_add. }
+      rewrite Eadd, (IH _ Hw). cbn. now rewrite <- app_assoc.
+Qed.
+
+Lemma iter_types_names_build {D} (items : list (str * D)) :
+  map fst (iter_types (build items)) = dedup [] (keys items).
+Proof.
+  rewrite iter_types_wf by apply wf_build.
+  destruct (wf_build items) as [Hn _]. unfold keys in Hn. rewrite <- Hn.
+  unfold build. now rewrite names_extend by apply wf_empty.
+Qed.
+
+(** ** map_str *)
+
+Definition fg {D D'} (f : str -> str) (g : D -> D') (kv : str * D) : str * D' := (f (fst kv), g (snd kv)).
+
+Lemma keys_map_fg {D D'} (f : str -> str) (g : D -> D') (m : hmap D) : keys (map (fg f g) m) = map f (keys m).
+Proof. unfold keys. rewrite !map_map. reflexivity. Qed.
+
+(** site: type-system/src/schema.rs map_str, type_definitions.iter() / directive_definitions.iter() *)
+Lemma map_str_spec {D D'} (pi : oracle) (f : str -> str) (g : D -> D') (sc : schema D) :
+  is_oracle pi -> wf sc -> NoDup (map f (sc_names sc)) ->
+  iter_types (map_str pi f g sc) = map (fg f g) (iter_types sc)
+  /\ forall k, get_type (map_str pi f g sc) k = hm_get (map (fg f g) (sc_types sc)) k.
+Proof.
+  intros Ho Hw Hinj. pose proof Hw as [Hn Hnd].
+  set (m' := map (fg f g) (pi D (sc_types sc))).
+  assert (Hperm : Permutation m' (map (fg f g) (sc_types sc))).
+  { unfold m'. apply Permutation_map, Ho. }
+  assert (Hk : NoDup (keys (map (fg f g) (sc_types sc)))).
+  { rewrite keys_map_fg. rewrite <- Hn. exact Hinj. }
+  assert (Hk' : NoDup (keys m')).
+  { eapply Permutation_NoDup; [apply Permutation_sym, Permutation_map, Hperm|exact Hk]. }
+  assert (Et : sc_types (map_str pi f g sc) = m').
+  { unfold map_str. cbn [sc_types]. fold (fg f g). apply hm_collect_nodup. exact Hk'. }
+  split.
+  - rewrite (iter_types_wf sc Hw). unfold iter_types. rewrite Et. unfold map_str. cbn [sc_names].
+    rewrite Hn.
+    assert (G : forall l : hmap D, (forall kv, In kv l -> In kv (sc_types sc)) ->
+                flat_map (fun n => match hm_get m' n with Some d => [(n, d)] | None => [] end) (map f (keys l))
+                = map (fg f g) l).
+    { induction l as [|[k v] r IH]; intros Hl; [reflexivity|].
+      cbn [keys map fst flat_map].
+      assert (Hg : hm_get m' (f k) = Some (g v)).
+      { apply hm_get_in; [exact Hk'|]. eapply Permutation_in; [apply Permutation_sym, Hperm|].
+        apply in_map_iff. exists (k, v). split; [reflexivity|]. apply Hl. now left. }
+      rewrite Hg. cbn [app]. f_equal. apply IH. intros kv Hin. apply Hl. now right. }
+    apply G. auto.
+  - intros k. unfold get_type. rewrite Et. apply hm_get_perm; assumption.
+Qed.
+
+Lemma map_str_oracle_irrelevant {D D'} (pi pi' : oracle) (f : str -> str) (g : D -> D') (sc : schema D) :
+  is_oracle pi -> is_oracle pi' -> wf sc -> NoDup (map f (sc_names sc)) ->
+  iter_types (map_str pi f g sc) = iter_types (map_str pi' f g sc)
+  /\ forall k, get_type (map_str pi f g sc) k = get_type (map_str pi' f g sc) k.
+Proof.
+  intros H H' Hw Hinj.
+  destruct (map_str_spec pi f g sc H Hw Hinj) as [E1 E2].
+  destruct (map_str_spec pi' f g sc H' Hw Hinj) as [E1' E2'].
+  split; [congruence|]. intros k. now rewrite E2, E2'.
+Qed.
+
+(** without injectivity of the renaming the result does depend on the iteration order *)
+Lemma map_str_refuted :
+  exists (sc : schema N) (f : str -> str) (pi pi' : oracle),
+    is_oracle pi /\ is_oracle pi' /\ wf sc /\
+    get_type (map_str pi f (fun x => x) sc) (s "K") <> get_type (map_str pi' f (fun x => x) sc) (s "K").
+Proof.
+  exists (build [(s "A", 1%N); (s "B", 2%N)]), (fun _ => s "K"), o_id, o_rev.
+  split; [apply o_id_is_oracle|]. split; [apply o_rev_is_oracle|]. split; [apply wf_build|].
+  vm_compute. discriminate.
+Qed.
+
+(* ------------------------------------------------------------------------------------------- *)
+(** * §D permuting definitions *)
+
+Lemma filter_perm {A} (p : A -> bool) l l' : Permutation l l' -> Permutation (filter p l) (filter p l').
+Proof.
+  induction 1 as [|x l l' _ IH|x y l|l l' l'' _ IH1 _ IH2]; cbn [filter].
+  - constructor.
+  - destruct (p x); [now constructor|exact IH].
+  - destruct (p x), (p y); try apply Permutation_refl. apply perm_swap.
+  - eapply Permutation_trans; eassumption.
+Qed.
+
+(** reordering definitions with distinct names: same lookups, iteration order permuted accordingly *)
+Lemma build_permutation {D} (items items' : list (str * D)) :
+  Permutation items items' -> NoDup (keys items) ->
+  (forall k, get_type (build items) k = get_type (build items') k)
+  /\ Permutation (iter_types (build items)) (iter_types (build items'))
+  /\ iter_types (build items) = items /\ iter_types (build items') = items'.
+Proof.
+  intros Hp Hnd.
+  assert (Hnd' : NoDup (keys items')) by (eapply Permutation_NoDup; [apply Permutation_map, Hp|exact Hnd]).
+  rewrite !iter_types_build_nodup by assumption.
+  repeat split; try assumption.
+  intros k. rewrite !get_type_build_nodup by assumption. now apply hm_get_perm.
+Qed.
+
+Definition named (ds : list adef) : list (str * adef) := map (fun d => (d_name d, d)) ds.
+
+Lemma keys_named ds : keys (named ds) = map d_name ds.
+Proof. unfold keys, named. now rewrite map_map. Qed.
+
+Lemma map_snd_named ds : map snd (named ds) = ds.
+Proof. unfold named. rewrite map_map. cbn [snd]. apply map_id. Qed.
+
+(** mechanism "implementer enumeration in schema order": the enumeration is the document's objects that
+    list the interface, in document order; permuting the definitions permutes the enumeration, so the
+    union type built from it has the same members, and the checker's "implements both" test is unchanged *)
+Lemma implementers_spec (ds : list adef) iname :
+  NoDup (map d_name ds) ->
+  interface_implementers (build (named ds)) iname = filter (implements iname) ds.
+Proof.
+  intros Hnd. unfold interface_implementers.
+  rewrite iter_types_build_nodup by (rewrite keys_named; exact Hnd).
+  now rewrite map_snd_named.
+Qed.
+
+Lemma implementers_permutation (ds ds' : list adef) iname :
+  Permutation ds ds' -> NoDup (map d_name ds) ->
+  Permutation (interface_implementers (build (named ds)) iname) (interface_implementers (build (named ds')) iname)
+  /\ (forall o, In o (interface_implementers (build (named ds)) iname) <-> In o (interface_implementers (build (named ds')) iname)).
+Proof.
+  intros Hp Hnd.
+  assert (Hnd' : NoDup (map d_name ds')) by (eapply Permutation_NoDup; [apply Permutation_map, Hp|exact Hnd]).
+  rewrite !implementers_spec by assumption.
+  pose proof (filter_perm (implements iname) ds ds' Hp) as HP.
+  split; [exact HP|]. intros o. split; intros Hin.
+  - eapply Permutation_in; [exact HP|exact Hin].
+  - eapply Permutation_in; [apply Permutation_sym, HP|exact Hin].
+Qed.
+
+Lemma implements_both_permutation (ds ds' : list adef) i1 i2 :
+  Permutation ds ds' -> NoDup (map d_name ds) ->
+  any_object_implements_both (build (named ds)) i1 i2 = any_object_implements_both (build (named ds')) i1 i2.
+Proof.
+  intros Hp Hnd.
+  assert (Hnd' : NoDup (map d_name ds')) by (eapply Permutation_NoDup; [apply Permutation_map, Hp|exact Hnd]).
+  unfold any_object_implements_both.
+  rewrite !iter_types_build_nodup by (rewrite keys_named; assumption).
+  rewrite !map_snd_named. now apply existsb_perm.
+Qed.
+
+(** [type_defs] of a permuted document is the permuted list of type definitions *)
+Lemma type_defs_perm doc doc' : Permutation doc doc' -> Permutation (type_defs doc) (type_defs doc').
+Proof. intros Hp. unfold type_defs. now apply Permutation_flat_map. Qed.
+
+Lemma ast_to_type_system_permutation doc doc' :
+  Permutation doc doc' -> NoDup (map d_name (type_defs doc)) ->
+  (forall k, get_type (ast_to_type_system doc) k = get_type (ast_to_type_system doc') k)
+  /\ Permutation (iter_types (ast_to_type_system doc)) (iter_types (ast_to_type_system doc'))
+  /\ (forall i, Permutation (interface_implementers (ast_to_type_system doc) i)
+                            (interface_implementers (ast_to_type_system doc') i))
+  /\ (forall i1 i2, any_object_implements_both (ast_to_type_system doc) i1 i2
+                    = any_object_implements_both (ast_to_type_system doc') i1 i2).
+Proof.
+  intros Hp Hnd. pose proof (type_defs_perm doc doc' Hp) as Ht.
+  unfold ast_to_type_system. fold (named (type_defs doc)). fold (named (type_defs doc')).
+  assert (Hpn : Permutation (named (type_defs doc)) (named (type_defs doc'))) by (apply Permutation_map, Ht).
+  assert (Hk : NoDup (keys (named (type_defs doc)))) by (rewrite keys_named; exact Hnd).
+  destruct (build_permutation _ _ Hpn Hk) as (G & P & _ & _).
+  repeat split; try assumption.
+  - intros i. now apply implementers_permutation.
+  - intros i1 i2. now apply implements_both_permutation.
+Qed.
+
+(* ------------------------------------------------------------------------------------------- *)
+(** * §E ExtensionList: the stable sort by position makes the result independent of the map's order *)
+
+Lemma pos_leb_total a b : pos_leb a b = true \/ pos_leb b a = true.
+Proof.
+  unfold pos_leb.
+  destruct (N.ltb_spec (p_line a) (p_line b)) as [H1|H1]; [now left|].
+  destruct (N.ltb_spec (p_line b) (p_line a)) as [H2|H2]; [now right|].
+  assert (E : p_line a = p_line b) by lia. rewrite E, N.eqb_refl. cbn [orb andb].
+  destruct (N.leb_spec (p_col a) (p_col b)); [now left|right]. apply N.leb_le. lia.
+Qed.
+
+Lemma pos_leb_trans a b c : pos_leb a b = true -> pos_leb b c = true -> pos_leb a c = true.
+Proof.
+  unfold pos_leb. intros H1 H2.
+  apply orb_true_iff in H1. apply orb_true_iff in H2. apply orb_true_iff.
+  rewrite !andb_true_iff, !N.ltb_lt, !N.eqb_eq, !N.leb_le in *.
+  destruct H1 as [H1|[E1 L1]], H2 as [H2|[E2 L2]]; [left; lia|left; lia|left; lia|right; split; lia].
+Qed.
+
+Section Sorting.
+  Context {A : Type} (key : A -> pos).
+  Definition kle (a b : A) : Prop := pos_leb (key a) (key b) = true.
+
+  Lemma ins_by_perm x l : Permutation (ins_by key x l) (x :: l).
+  Proof.
+    induction l as [|y r IH]; cbn [ins_by]; [apply Permutation_refl|].
+    destruct (pos_leb (key x) (key y)); [apply Permutation_refl|].
+    eapply Permutation_trans; [apply perm_skip, IH|apply perm_swap].
+  Qed.
+
+  Lemma sort_by_perm l : Permutation (sort_by key l) l.
+  Proof.
+    unfold sort_by. induction l as [|x r IH]; cbn [fold_right]; [constructor|].
+    eapply Permutation_trans; [apply ins_by_perm|now apply perm_skip].
+  Qed.
+
+  Lemma ins_by_sorted x l : StronglySorted kle l -> StronglySorted kle (ins_by key x l).
+  Proof.
+    induction l as [|y r IH]; intros Hs; cbn [ins_by].
+    - repeat constructor.
+    - inversion Hs as [|? ? Hr Hall]; subst.
+      destruct (pos_leb (key x) (key y)) eqn:E.
+      + constructor; [exact Hs|]. constructor; [exact E|].
+        rewrite Forall_forall in *. intros z Hz. eapply pos_leb_trans; [exact E|]. now apply Hall.
+      + constructor; [now apply IH|].
+        rewrite Forall_forall in *. intros z Hz.
+        apply (Permutation_in _ (ins_by_perm x r)) in Hz. destruct Hz as [<-|Hz]; [|now apply Hall].
+        unfold kle. destruct (pos_leb_total (key x) (key y)); congruence.
+  Qed.
+
+  Lemma sort_by_sorted l : StronglySorted kle (sort_by key l).
+  Proof.
+    unfold sort_by. induction l as [|x r IH]; cbn [fold_right]; [constructor|now apply ins_by_sorted].
+  Qed.
+
+  (** two sorted permutations of each other coincide when no two distinct elements share a position *)
+  Lemma sorted_unique l1 : forall l2,
+    StronglySorted kle l1 -> StronglySorted kle l2 -> Permutation l1 l2 ->
+    (forall x y, In x l1 -> In y l1 -> kle x y -> kle y x -> x = y) -> l1 = l2.
+  Proof.
+    induction l1 as [|a r1 IH]; intros l2 H1 H2 Hp Hanti.
+    - apply Permutation_nil in Hp. now subst.
+    - destruct l2 as [|b r2]; [apply Permutation_sym, Permutation_nil in Hp; discriminate|].
+      inversion H1 as [|? ? Hs1 Ha]; subst. inversion H2 as [|? ? Hs2 Hb]; subst.
+      rewrite Forall_forall in Ha, Hb.
+      assert (Eab : a = b).
+      { assert (Hain : In a (b :: r2)) by (eapply Permutation_in; [exact Hp|now left]).
+        assert (Hbin : In b (a :: r1)) by (eapply Permutation_in; [apply Permutation_sym, Hp|now left]).
+        destruct Hain as [->|Hain]; [reflexivity|]. destruct Hbin as [->|Hbin]; [reflexivity|].
+        apply Hanti; [now left|now right|now apply Ha|now apply Hb]. }
+      subst b. f_equal. apply IH; try assumption.
+      + eapply Permutation_cons_inv; exact Hp.
+      + intros x y Hx Hy. apply Hanti; now right.
+  Qed.
+
+  Lemma sort_by_order_irrelevant l l' :
+    Permutation l l' ->
+    (forall x y, In x l -> In y l -> kle x y -> kle y x -> x = y) ->
+    sort_by key l = sort_by key l'.
+  Proof.
+    intros Hp Hanti. apply sorted_unique; try apply sort_by_sorted.
+    - eapply Permutation_trans; [apply sort_by_perm|].
+      eapply Permutation_trans; [exact Hp|apply Permutation_sym, sort_by_perm].
+    - intros x y Hx Hy. apply Hanti; eapply Permutation_in; try apply sort_by_perm; assumption.
+  Qed.
+End Sorting.
+
+Definition orphan_b (kit : str * xitem) : bool :=
+  match x_orig (snd kit), x_exts (snd kit) with None, _ :: _ => true | _, _ => false end.
+Definition keep (kit : str * xitem) : list (adef * list adef) :=
+  match x_orig (snd kit) with Some o => [(o, x_exts (snd kit))] | None => [] end.
+
+Lemma collect_items_ok elem (l : xlist) t :
+  collect_items elem l = Ok t -> t = flat_map keep l /\ forallb (fun kit => negb (orphan_b kit)) l = true.
+Proof.
+  revert t. induction l as [|[k [o exts]] r IH]; intros t Ht; cbn [collect_items] in Ht.
+  - inversion Ht. now split.
+  - cbn [flat_map forallb]. unfold keep at 1, orphan_b at 1. cbn [snd x_orig x_exts].
+    destruct o as [o|].
+    + destruct (collect_items elem r) as [t0|e]; [|discriminate]. inversion Ht; subst.
+      destruct (IH t0 eq_refl) as [-> ->]. now split.
+    + destruct exts; [|discriminate]. destruct (IH t Ht) as [-> ->]. now split.
+Qed.
+
+Lemma collect_items_complete elem (l : xlist) :
+  forallb (fun kit => negb (orphan_b kit)) l = true -> collect_items elem l = Ok (flat_map keep l).
+Proof.
+  induction l as [|[k [o exts]] r IH]; intros H; [reflexivity|].
+  cbn [forallb] in H. apply andb_true_iff in H. destruct H as [H1 H2].
+  cbn [collect_items flat_map]. unfold keep at 1. unfold orphan_b in H1. cbn [snd x_orig x_exts] in *.
+  destruct o as [o|].
+  - now rewrite (IH H2).
+  - destruct exts; [now apply IH|discriminate].
+Qed.
+
+Lemma forallb_perm {A} (f : A -> bool) l l' : Permutation l l' -> forallb f l = forallb f l'.
+Proof.
+  induction 1 as [|x l l' _ IH|x y l|l l' l'' _ IH1 _ IH2]; cbn [forallb].
+  - reflexivity.
+  - now rewrite IH.
+  - destruct (f x), (f y); reflexivity.
+  - congruence.
+Qed.
+
+Lemma collect_items_perm elem (l l' : xlist) : Permutation l l' ->
+  forall t, collect_items elem l = Ok t -> exists t', collect_items elem l' = Ok t' /\ Permutation t t'.
+Proof.
+  intros Hp t Ht. destruct (collect_items_ok elem l t Ht) as [-> Hno].
+  exists (flat_map keep l'). split.
+  - apply collect_items_complete. now rewrite <- (forallb_perm _ l l' Hp).
+  - now apply Permutation_flat_map.
+Qed.
+
+(** mechanism "stable sort of merged definitions by position": whenever the list resolves, the order of
+    the result is fixed by the positions alone — it would be the same for any iteration order of the map
+    (so also for a HashMap in place of the IndexMap), provided no two originals share a (line, column) *)
+Lemma into_original_and_extensions_order_irrelevant elem (l l' : xlist) t :
+  Permutation l l' ->
+  into_original_and_extensions elem l = Ok t ->
+  (forall x y, In x t -> In y t ->
+     pos_leb (d_pos (fst x)) (d_pos (fst y)) = true -> pos_leb (d_pos (fst y)) (d_pos (fst x)) = true -> x = y) ->
+  into_original_and_extensions elem l' = Ok t.
+Proof.
+  unfold into_original_and_extensions. intros Hp Ht Hanti.
+  destruct (collect_items elem l) as [t0|e] eqn:E; [|discriminate]. inversion Ht; subst t.
+  destruct (collect_items_perm elem l l' Hp t0 E) as (t1 & -> & P).
+  f_equal. symmetry. apply sort_by_order_irrelevant; [exact P|].
+  intros x y Hx Hy. apply Hanti; (eapply Permutation_in; [apply Permutation_sym, sort_by_perm|assumption]).
+Qed.
+
+Lemma into_original_and_extensions_sorted elem l t :
+  into_original_and_extensions elem l = Ok t ->
+  StronglySorted (fun a b => pos_leb (d_pos (fst a)) (d_pos (fst b)) = true) t.
+Proof.
+  unfold into_original_and_extensions. destruct (collect_items elem l); [|discriminate].
+  intros H; inversion H; subst. apply (sort_by_sorted (fun oe : adef * list adef => d_pos (fst oe))).
+Qed.
+
+(** a generic cover for "iterate a map, insert (some of) its entries under their own keys into another
+    map": the resulting lookups do not depend on the iteration order *)
+Lemma reinsert_oracle_irrelevant {V V'} (pi pi' : oracle) (h : str * V -> option V') (base : hmap V') (m : hmap V) k :
+  is_oracle pi -> is_oracle pi' -> NoDup (keys m) ->
+  let sel := fun kv : str * V => match h kv with Some v' => [(fst kv, v')] | None => [] end in
+  hm_get (hm_extend base (flat_map sel (pi V m))) k = hm_get (hm_extend base (flat_map sel (pi' V m))) k.
+Proof.
+  intros Ho Ho' Hnd sel.
+  assert (Hsub : forall l : hmap V, NoDup (keys l) -> NoDup (keys (flat_map sel l))).
+  { induction l as [|[k0 v0] r IH]; intros Hl; [constructor|].
+    cbn [keys map fst] in Hl. inversion Hl as [|? ? Hn Hr]; subst.
+    cbn [flat_map]. unfold sel at 1. destruct (h (k0, v0)); cbn [app fst]; [|now apply IH].
+    cbn [keys map fst]. constructor; [|now apply IH].
+    intros Hin. apply Hn. unfold keys in Hin. apply in_map_iff in Hin. destruct Hin as ([k1 v1] & E & Hin).
+    cbn [fst] in E. subst k1. apply in_flat_map in Hin. destruct Hin as ([k2 v2] & Hin2 & Hs).
+    unfold sel in Hs. destruct (h (k2, v2)); [|destruct Hs]. destruct Hs as [E|[]]. inversion E; subst.
+    apply in_map_iff. now exists (k0, v2). }
+  rewrite !hm_get_extend_nodup by (apply Hsub; apply oracle_keys_nodup; assumption).
+  rewrite (hm_get_perm (flat_map sel (pi V m)) (flat_map sel (pi' V m)) k).
+  - reflexivity.
+  - apply Permutation_flat_map. eapply Permutation_trans; [apply Ho|apply Permutation_sym, Ho'].
+  - apply Hsub. now apply oracle_keys_nodup.
+Qed.
+
+(* ------------------------------------------------------------------------------------------- *)
+(** * §F every scanned iteration site is accounted for *)
+
+Import Gen.C17_sites_gen.
+Local Open Scope string_scope.
+
+Inductive cover :=
+| NotHash (why : string)                        (* over-report of the scanner: the binding is a Vec of AST nodes *)
+| ByLemma (name : string) (P : Prop) (pf : P)   (* the order-insensitivity lemma covering the site *)
+| Argued (why : string).                        (* outside the models: argument in words, see design/C17.md *)
+
+Definition ast_directives : string := "the receiver is the `directives: Vec<Directive>` field of an AST node (same name as DefinitionMap.directives)".
+
+Definition known_sites : list (site * cover) := [
+  (mk_site (s "crates/checker/src/type_system_checker/check_directive_recursion.rs") (s "check_directive_recursion") (s "directives") (s "iter") 1, NotHash ast_directives);
+  (mk_site (s "crates/checker/src/type_system_checker/check_directive_recursion.rs") (s "directives_in_type") (s "directives") (s "iter") 10, NotHash ast_directives);
+  (mk_site (s "crates/graphql-loader/src/tasks.rs") (s "iter_loaded_files") (s "loaded_files") (s "iter") 1,
+     Argued "only caller is loader.rs get_required_files: the answer is the *set* of not-yet-loaded import targets (membership tests `contains_file`/`required_files.contains` are order-free); its order follows the hash order and is a set by contract (the JS side loads every listed file); not part of `generate` output");
+  (mk_site (s "crates/plugin/src/graphql_scalars_plugin/mod.rs") (s "load_schema_extensions") (s "type_extensions") (s "for") 1,
+     ByLemma "reinsert_oracle_irrelevant" _ (@reinsert_oracle_irrelevant));
+  (mk_site (s "crates/plugin/src/graphql_scalars_plugin/mod.rs") (s "schema_addition") (s "scalar_extensions") (s "iter") 1,
+     Argued "collected into a Vec and sorted by the (unique) map key before use: `scalar_extensions.sort_by_key(|(type_name, _)| *type_name)`; same argument as sort_by_order_irrelevant with string keys; plugin path needs a JS schema file and is not reachable offline");
+  (mk_site (s "crates/plugin/src/model_plugin/mod.rs") (s "check_schema") (s "directives") (s "iter") 3, NotHash ast_directives);
+  (mk_site (s "crates/plugin/src/model_plugin/mod.rs") (s "transform_document_for_resolvers") (s "directives") (s "iter") 2, NotHash ast_directives);
+  (mk_site (s "crates/plugin/src/model_plugin/mod.rs") (s "transform_document_for_runtime_server") (s "directives") (s "iter") 2, NotHash ast_directives);
+  (mk_site (s "crates/plugin/src/model_plugin/mod.rs") (s "transform_resolver_output_types") (s "directives") (s "iter") 2, NotHash ast_directives);
+  (mk_site (s "crates/printer/src/operation_type_printer/type_printer.rs") (s "check_skip_directive") (s "directives") (s "for") 1, NotHash ast_directives);
+  (mk_site (s "crates/printer/src/schema_type_printer/context.rs") (s "get_bag_of_identifiers") (s "scalar_types") (s "values") 1,
+     ByLemma "bag_mem_oracle_irrelevant" _ bag_mem_oracle_irrelevant);
+  (mk_site (s "crates/printer/src/schema_type_printer/context.rs") (s "get_scalar_types") (s "directives") (s "iter") 1, NotHash ast_directives);
+  (mk_site (s "crates/printer/src/schema_type_printer/printer.rs") (s "from_config") (s "scalar_types") (s "iter") 1,
+     ByLemma "from_config_oracle_irrelevant" _ from_config_oracle_irrelevant);
+  (mk_site (s "crates/type-system/src/schema.rs") (s "map_str") (s "directive_definitions") (s "iter") 1,
+     ByLemma "map_str_oracle_irrelevant" _ (@map_str_oracle_irrelevant));
+  (mk_site (s "crates/type-system/src/schema.rs") (s "map_str") (s "type_definitions") (s "iter") 1,
+     ByLemma "map_str_oracle_irrelevant" _ (@map_str_oracle_irrelevant))
+].
+
+Definition site_known (x : site) : bool := existsb (fun kc => site_eqb x (fst kc)) known_sites.
+Definition site_scanned (x : site) : bool := existsb (site_eqb x) scanned_sites.
+
+(** T3 obligation: a new (or duplicated, or moved) hash-iteration site in /repo makes this fail *)
+Lemma all_sites_accounted : forallb site_known scanned_sites = true.
+Proof. vm_compute. reflexivity. Qed.
+
+(** and the table carries no stale entries *)
+Lemma known_sites_all_scanned : forallb (fun kc => site_scanned (fst kc)) known_sites = true.
+Proof. vm_compute. reflexivity. Qed.
+
+(** files that mention a hash container at all; how each uses it.  "key" = get/insert/contains/remove only. *)
+Definition known_hash_files : list (str * string) := [
+  (s "crates/async-runtime/src/ticket.rs", "string_tickets: key");
+  (s "crates/checker/src/operation_checker/count_selection_set_fields.rs", "FragmentMap: key");
+  (s "crates/checker/src/operation_checker/fragment_map.rs", "FragmentMap built by collect from a Vec: key");
+  (s "crates/checker/src/operation_checker/mod.rs", "FragmentMap: key");
+  (s "crates/checker/src/type_system_checker/check_directive_recursion.rs", "seen_directives: key; DefinitionMap: key");
+  (s "crates/cli/src/check.rs", "file_by_path built by collect from a Vec: key");
+  (s "crates/cli/src/schema_loader.rs", "type_extensions: deserialised, handed to plugins (site load_schema_extensions)");
+  (s "crates/config-file/src/config.rs", "scalar_types: deserialised, iterated at site from_config");
+  (s "crates/graphql-loader/src/tasks.rs", "tasks: key; loaded_files: key + site iter_loaded_files");
+  (s "crates/plugin/src/graphql_scalars_plugin/mod.rs", "sites load_schema_extensions, schema_addition");
+  (s "crates/plugin/src/model_plugin/mod.rs", "base (resolver output types): key");
+  (s "crates/plugin/src/plugin/mod.rs", "passes maps through");
+  (s "crates/plugin/src/plugin_v1/mod.rs", "trait signatures");
+  (s "crates/printer/src/operation_base_printer/visitor.rs", "fragments: key");
+  (s "crates/printer/src/operation_js_printer/printers.rs", "fragments: key");
+  (s "crates/printer/src/operation_type_printer/deep_merge.rs", "seen_fields: key");
+  (s "crates/printer/src/operation_type_printer/type_printer.rs", "fragment_definitions: key");
+  (s "crates/printer/src/operation_type_printer/visitor.rs", "fragment_definitions built by collect from a Vec: key");
+  (s "crates/printer/src/resolver_type_printer/plugin.rs", "trait signature");
+  (s "crates/printer/src/resolver_type_printer/printer.rs", "ts_types built by collect from a Vec: key");
+  (s "crates/printer/src/schema.rs", "builtin scalar table built by collect from a Vec");
+  (s "crates/printer/src/schema_type_printer/context.rs", "scalar_types: key + site get_bag_of_identifiers; local_type_names: key");
+  (s "crates/printer/src/schema_type_printer/printer.rs", "scalar_types: site from_config");
+  (s "crates/semantics/src/definition_map.rs", "types, directives: key");
+  (s "crates/semantics/src/operation_import_resolver/mod.rs", "visited: key");
+  (s "crates/type-system/src/builder.rs", "type_definitions, directive_definitions: key (entry); order kept in type_names / directive_names");
+  (s "crates/type-system/src/schema.rs", "key; sites map_str; iter_types / iter_directives go through the name vectors")
+].
+
+Lemma all_hash_files_accounted :
+  forallb (fun f => existsb (fun kf => str_eqb f (fst kf)) known_hash_files) hash_mention_files = true.
+Proof. vm_compute. reflexivity. Qed.
